@@ -4,6 +4,7 @@ import (
 	"fmt"
 	"go/types"
 	"regexp"
+	"sort"
 	"strings"
 
 	"github.com/jmattheis/goverter/config/parse"
@@ -61,7 +62,13 @@ func parseMethods(ctx *context, rawConverter *RawConverter, c *Converter) error 
 		}
 		return nil
 	}
-	for name, lines := range rawConverter.Methods {
+	names := make([]string, 0, len(rawConverter.Methods))
+	for name := range rawConverter.Methods {
+		names = append(names, name)
+	}
+	sort.Strings(names)
+	for _, name := range names {
+		lines := rawConverter.Methods[name]
 		_, fn, err := ctx.Loader.GetOneRaw(c.Package, name)
 		if err != nil {
 			return err
